@@ -11,6 +11,7 @@ R4  timing: calc_cvcs and collect_cvc_data run the total-force stage before the 
     functions make the same choice
 R7  a component that selects one of several references by a search (arg-min) subscripts the reference array with the
     selected index wherever it computes gradients or inverse gradients
+R8  the table behind the derivative of the optimal rotation is prepared in every function that reads it
 """
 from . import expr as X
 from . import cond as C
@@ -371,7 +372,45 @@ def r7(F, rep, rid="C07-R7"):
         raise AnalysisBroken("%s: no reference array subscripted with a searched index in calc_gradients() (rmsd atomPermutation expected)" % rid)
 
 
+def r8(F, rep, rid="C07-R8"):
+    rep.rule(rid, "the derivative of the optimal rotation is read from a table prepared for the current rotation: every call of "
+                  "calc_derivative_wrt_group1/2() on a rotation-derivative object is preceded, in the same function, by "
+                  "prepare_derivative() on the same object -- on every path (the prepare dominates the call), or under the same "
+                  "conditions as the call; all such functions do so today (fit gradients, Jacobian terms, orientation "
+                  "components), none relies on another function having prepared the table earlier in the step")
+    from .rules_c03 import all_guards
+    n = 0
+    for f in sorted(F.funcs.values(), key=lambda g: g.q):
+        if "/src/" not in f.file or f.body is None or not f.cfg.ok or "colvar_rotation_derivative" in f.file:
+            continue
+        uses = [c for c in X.calls(f) if c["k"] == "CXXMemberCallExpr" and (X.callee_name(c) or "").startswith("calc_derivative_wrt_group") and X.receiver(c) is not None]
+        if not uses:
+            continue
+        preps = [c for c in X.calls(f) if c["k"] == "CXXMemberCallExpr" and X.callee_name(c) == "prepare_derivative" and X.receiver(c) is not None]
+        seen = set()
+        for u in uses:
+            rk = X.re_strip(X.key(X.receiver(u), f))
+            if rk in seen:
+                continue
+            seen.add(rk)
+            n += 1
+            gu = {X.re_strip(X.key(cn, f)) + str(pol) for cn, pol in all_guards(f, u)}
+            ok = False
+            for p0 in preps:
+                if X.re_strip(X.key(X.receiver(p0), f)) != rk:
+                    continue
+                gp = {X.re_strip(X.key(cn, f)) + str(pol) for cn, pol in all_guards(f, p0)}
+                if f.cfg.dominates(p0, u) or (f.cfg.can_reach(p0, u) and gp <= gu):
+                    ok = True
+            rep.add(rid, "%s|%s" % (f.q, rk), f.loc(u), "%s reads the rotation derivative of `%s` %s" % (f.q, rk, "after preparing it" if ok else "WITHOUT preparing it in this function"), ok,
+                    detail="when the function that used to prepare the table is not run (fit gradients switched off) the derivative is taken from "
+                           "a table of an earlier rotation, or from an empty one: the Jacobian term of the total force is wrong", func=f.q)
+    if n < 6:
+        raise AnalysisBroken("%s: only %d functions reading rotation derivatives found" % (rid, n))
+
+
 def run(F, rep, tier):
+    r8(F, rep)
     r7(F, rep)
     r6(F, rep)
     r1(F, rep)
